@@ -474,4 +474,71 @@ def Dedup.step (d : Dedup) : DEv → Dedup
 
 def Dedup.run (d : Dedup) (evs : List DEv) : Dedup := evs.foldl Dedup.step d
 
+/-! ## `send`: the sharing map, task by task
+
+`Dedup` above lets a finished lookup serve all its waiters in one step.  The real tasks are polled one
+by one, can be dropped at any point and can be resumed late, so this finer machine has explicit
+schedules.  State of the map for ONE key:
+
+* `entry`: the lookup registered in `active_requests`;
+* a lookup is *released* once its upstream answer is available, *done* once a task awaiting it has been
+  polled after that (the `Shared` future then holds the result for every clone);
+* every alive task awaits one lookup and knows whether it is its creator.  As in the code, ONLY the
+  creator holds an `ActiveRequestCleanup`: it removes the key (unconditionally) when the creator
+  returns or is dropped; a waiter's return or drop never touches the map. -/
+
+inductive SEv
+  | start (x : Nat)     -- task `x` calls `send` and is polled once
+  | drop (x : Nat)      -- task `x`'s future is dropped
+  | release (l : Nat)   -- the upstream answer of lookup `l` becomes available
+  | poll (x : Nat)      -- task `x` is polled (possibly long after its lookup finished)
+  deriving DecidableEq, Repr
+
+structure Task where
+  id : Nat
+  lookup : Nat
+  creator : Bool
+  deriving DecidableEq, Repr
+
+structure Share where
+  entry : Option Nat := none
+  /-- lookups (= `try_send` invocations = upstream exchanges of a one-server pool) started: 1, 2, … -/
+  started : Nat := 0
+  released : List Nat := []
+  tasks : List Task := []
+  /-- (task, lookup whose result it returned), in the order of returning -/
+  served : List (Nat × Nat) := []
+  deriving DecidableEq, Repr
+
+def Share.step (s : Share) : SEv → Share
+  | .start x =>
+    match s.entry with
+    | some l =>
+      -- joins the registered lookup; its first poll already returns if the answer is available
+      if l ∈ s.released then { s with served := s.served ++ [(x, l)] }
+      else { s with tasks := s.tasks ++ [⟨x, l, false⟩] }
+    | none =>
+      let l := s.started + 1
+      if l ∈ s.released then
+        -- creates, is answered in its first poll, returns: guard dropped, key removed again
+        { s with started := l, served := s.served ++ [(x, l)] }
+      else { s with started := l, entry := some l, tasks := s.tasks ++ [⟨x, l, true⟩] }
+  | .drop x =>
+    { s with
+      tasks := s.tasks.filter (fun t => t.id ≠ x)
+      entry := if s.tasks.any (fun t => t.id = x && t.creator) then none else s.entry }
+  | .release l => { s with released := l :: s.released }
+  | .poll x =>
+    match s.tasks.find? (fun t => t.id = x) with
+    | none => s
+    | some t =>
+      if t.lookup ∈ s.released then
+        { s with
+          tasks := s.tasks.filter (fun t => t.id ≠ x)
+          served := s.served ++ [(x, t.lookup)]
+          entry := if t.creator then none else s.entry }
+      else s
+
+def Share.run (s : Share) (evs : List SEv) : Share := evs.foldl Share.step s
+
 end HickoryVerif.Pool
